@@ -5,6 +5,7 @@ package main
 // extends it at the frontier, queueing the feasible alternatives.
 
 import (
+	"encoding/json"
 	"fmt"
 	"go/token"
 	"go/types"
@@ -437,7 +438,8 @@ func (e *engine) explore(entry *ssa.Function, args []value, qlog func(int) *stri
 						res.Samples = append(res.Samples, o)
 					}
 				case "violated":
-					k := o.Kind + "|" + o.Label + "|" + o.Detail
+					fk, _ := json.Marshal(o.Facts)
+					k := o.Kind + "|" + o.Label + "|" + o.Detail + "|" + string(fk)
 					if !violKey[k] || len(res.Violated) < 8 {
 						if !violKey[k] {
 							res.Violated = append(res.Violated, o)
